@@ -713,6 +713,12 @@ impl Xot {
         F: Fn(Node) -> bool,
         C: Fn(&str, &str) -> bool,
     {
+        // attribute and namespace nodes do not take part in traversal, so
+        // without this two such nodes (and even an attribute and a namespace
+        // node) would always compare equal
+        if !self.value(a).is_normal() || !self.value(b).is_normal() {
+            return self.advanced_compare_value(a, b, &text_compare);
+        }
         let filter_edge = |edge: &NodeEdge| {
             let node = match edge {
                 NodeEdge::Start(node) | NodeEdge::End(node) => *node,
